@@ -3,7 +3,7 @@ import platform
 import sys
 import traceback
 
-from conductor.errors import ConductorError, UnsupportedPlatform
+from conductor.errors import ConductorAbort, ConductorError, UnsupportedPlatform
 from conductor.errors.signal import register_signal_handlers, raise_if_aborted
 
 
@@ -35,6 +35,13 @@ def check_platform_compatibility():
         raise UnsupportedPlatform()
 
 
+def _report_error_and_exit(ex, debug):
+    if debug:
+        print(traceback.format_exc(), file=sys.stderr)
+    print("ERROR:", ex.printable_message(), file=sys.stderr)
+    sys.exit(1)
+
+
 def cli_command(main):
     """
     A decorator used for CLI command entry point methods. This decorator
@@ -43,14 +50,16 @@ def cli_command(main):
 
     def command_main(args):
         try:
-            check_platform_compatibility()
-            register_signal_handlers()
-            main(args)
-            raise_if_aborted()
-        except ConductorError as ex:
-            if args.debug:
-                print(traceback.format_exc(), file=sys.stderr)
-            print("ERROR:", ex.printable_message(), file=sys.stderr)
-            sys.exit(1)
+            try:
+                check_platform_compatibility()
+                register_signal_handlers()
+                main(args)
+                raise_if_aborted()
+            except ConductorError as ex:
+                _report_error_and_exit(ex, args.debug)
+        except ConductorAbort as ex:
+            # A termination signal arrived while another error was being
+            # reported (the signal handler raises in the main thread).
+            _report_error_and_exit(ex, args.debug)
 
     return command_main
